@@ -17,9 +17,9 @@ pub const DEF: PropDef = PropDef {
     id: "C15",
     run,
     oracle,
-    rule: "cases = (cache-preloading calls, measured call) from: F1 hostile headers over short bodies (every count/length field of every version set to 0xffff/0x7fff); F2 buffers packed with n minimal packets per version; F3 one packet with n minimal sets/flowsets (empty, one record) under small and 1000-field cached templates; F4 one set with n minimal records; F5 templates with n fields plus matching data; F6 templates with z zero-length fields x r records (z*r <= 2e5); F7 failing records (V9 retry loop); F9 decode-then-discard; F10 one packet whose n sets redefine (same kind / other kind) or carry data for n distinct ids of a cache that earlier calls filled with 6000 templates (cost must not depend on what is cached); F8 random hostile and conformant histories; sizes up to the 65,535-byte limit. Oracle per measured call: S1 alloc_bytes <= K0 + K1*|buf| + K2*result_size; S2 result_size <= K0 + K3*(|buf| + wire size of the cached templates); S3 (metamorphic, per family) cost(2n) <= 2.5*cost(n) + K0 for alloc_bytes, alloc_calls and result_size at successive doublings up to the limit. K0 = 128 KiB; K1, K2, K3 calibrated once (4x the maximum observed on the unchanged tree over the generated cases that avoid open findings; recorded in the source). A bound that fails only by what the open finding 'zero-length fields are materialised per record' explains (budget computed from the templates in effect and the set sizes) is forgiven with that signature; anything else is a violation. non-trivial = |buf| >= 1 KiB, or a header field announces >= 16x more records/bytes than present, or the case is an S3 doubling pair; distinct by digest.",
+    rule: "cases = (cache-preloading calls, measured call) from: F1 hostile headers over short bodies (every count/length field of every version set to 0xffff/0x7fff); F2 buffers packed with n minimal packets per version; F3 one packet with n minimal sets/flowsets (empty, one record) under small and 1000-field cached templates; F4 one set with n minimal records; F5 templates with n fields plus matching data; F6 templates with z zero-length fields x r records (z*r <= 2e5); F7 failing records (V9 retry loop); F9 decode-then-discard; F10 one packet whose n sets redefine (same kind / other kind) or carry data for n distinct ids of a cache that earlier calls filled with 6000 templates (cost must not depend on what is cached); F8 random hostile and conformant histories; sizes up to the 65,535-byte limit. Oracle per measured call: S1 alloc_bytes <= K0 + K1*|buf| + K2*result_size; S2 result_size <= K0 + K3*(|buf| + wire size of the cached templates); S3 (metamorphic, per family) cost(2n) <= 2.5*cost(n) + K0 for alloc_bytes, alloc_calls and result_size at successive doublings up to the limit. S5 (CPU work, counted as instructions executed inside the measured parse_bytes call by valgrind/callgrind on a helper binary - exact, no clock involved; per family at its maximal size n): instructions(n) <= 6 x instructions(n/4) + 3e6 (linear 4x, quadratic 16x); S6 (families F10, a packet of 500 sets): instructions against the 6000-template cache <= 2 x instructions against a cache holding only the 500 ids used + 5e5. K0 = 128 KiB; K1, K2, K3 calibrated once (4x the maximum observed on the unchanged tree over the generated cases that avoid open findings; recorded in the source). A bound that fails only by what the open finding 'zero-length fields are materialised per record' explains (budget computed from the templates in effect and the set sizes) is forgiven with that signature; anything else is a violation. non-trivial = |buf| >= 1 KiB, or a header field announces >= 16x more records/bytes than present, or the case is an S3 doubling pair; distinct by digest.",
     assumptions: &[
-        "cost is allocator traffic on the calling thread (deterministic); CPU time is not an oracle",
+        "memory cost is allocator traffic on the calling thread (deterministic); CPU cost is the instruction count of the measured call under callgrind (repeatable to within a few percent; skipped, and reported as skipped in the evidence, if valgrind is not installed); clocks are never an oracle",
         "constants K1..K3 are calibrated, not derived; the targeted defects exceed them by orders of magnitude",
     ],
 };
@@ -182,7 +182,134 @@ pub fn check_bounds(o: &mut Outcome, what: &str, c: &Cost, zl: u64) -> Result<()
 /// measured. With param `double` = 1 the case is a doubling pair: calls are
 /// [preload..., small, preload..., large] split at param `split` (index of the first call
 /// of the second half) and S3 relates the last call of each half.
+pub static S5_PAIRS: AtomicU64 = AtomicU64::new(0);
+pub static S5_MAX_RATIO_X100: AtomicU64 = AtomicU64::new(0);
+pub static S6_MAX_RATIO_X100: AtomicU64 = AtomicU64::new(0);
+pub static S5_SKIPPED: AtomicU64 = AtomicU64::new(0);
+
+fn valgrind_available() -> bool {
+    static V: std::sync::OnceLock<bool> = std::sync::OnceLock::new();
+    *V.get_or_init(|| {
+        std::process::Command::new("valgrind")
+            .arg("--version")
+            .stdout(std::process::Stdio::null())
+            .stderr(std::process::Stdio::null())
+            .status()
+            .map(|s| s.success())
+            .unwrap_or(false)
+    })
+}
+
+/// instructions executed by the measured parse_bytes call (and the drop of its result) of a
+/// family instance, counted by callgrind on the `cgarm` helper binary: exact and
+/// repeatable, unlike any clock
+fn instructions(name: &str, n: usize) -> Result<u64, String> {
+    static SEQ: AtomicU64 = AtomicU64::new(0);
+    let exe = std::env::current_exe().map_err(|e| e.to_string())?;
+    let arm = exe.parent().ok_or("no parent dir")?.join("cgarm");
+    if !arm.exists() {
+        return Err(format!("{} not built", arm.display()));
+    }
+    let dir = crate::engine::out_dir("cg");
+    let _ = std::fs::create_dir_all(&dir);
+    let out = format!("{}/cg-{}-{}.out", dir, std::process::id(), SEQ.fetch_add(1, Ordering::Relaxed));
+    let st = std::process::Command::new("valgrind")
+        .args(["--tool=callgrind", "--toggle-collect=nfv_cg_measured", "--cache-sim=no", "--branch-sim=no", "-q"])
+        .arg(format!("--callgrind-out-file={}", out))
+        .arg(&arm)
+        .arg(name)
+        .arg(n.to_string())
+        .stdout(std::process::Stdio::null())
+        .stderr(std::process::Stdio::null())
+        .status()
+        .map_err(|e| e.to_string())?;
+    let text = std::fs::read_to_string(&out).unwrap_or_default();
+    let _ = std::fs::remove_file(&out);
+    if !st.success() {
+        return Err(format!("valgrind/cgarm exited with {:?}", st.code()));
+    }
+    text.lines()
+        .find_map(|l| l.strip_prefix("summary:").or_else(|| l.strip_prefix("totals:")))
+        .and_then(|v| v.trim().split_whitespace().next().and_then(|x| x.parse::<u64>().ok()))
+        .ok_or_else(|| "no summary line in the callgrind output".to_string())
+}
+
+/// S5 / S6 (CPU work - the part of the statement the allocation counters cannot see). The
+/// case names a family and a size n. S5: instructions(n) <= 6 x instructions(n/4) + 3e6
+/// (linear: 4x, n log n: < 5x, quadratic: 16x). S6 (F10 families, a packet of 500 sets): instructions against a
+/// cache of 6000 templates <= 2 x instructions against a cache holding only the 500 ids
+/// the packet uses + 5e5 (hash maps are randomly seeded per process, so counts vary by some
+/// ten percent between runs; a linear scan of the cache costs 7x).
+fn oracle_cg(case: &Case) -> Outcome {
+    let mut o = Outcome::pass();
+    let Some((name, _u, _max)) = FAMILIES.get(case.param("family_index") as usize) else {
+        return Outcome::harness("HARNESS: family index out of range");
+    };
+    let n = case.param("n") as usize;
+    if !valgrind_available() {
+        S5_SKIPPED.fetch_add(1, Ordering::Relaxed);
+        o.label("S5-skipped:valgrind-not-available");
+        return o;
+    }
+    let run = |nm: &str, k: usize| instructions(nm, k).map_err(|e| Outcome::harness(format!("HARNESS: callgrind run of {} n={}: {}", nm, k, e)));
+    let big = match run(name, n) {
+        Ok(x) => x,
+        Err(h) => return h,
+    };
+    let small = match run(name, n / 4) {
+        Ok(x) => x,
+        Err(h) => return h,
+    };
+    S5_PAIRS.fetch_add(1, Ordering::Relaxed);
+    S5_MAX_RATIO_X100.fetch_max(big * 100 / small.max(1), Ordering::Relaxed);
+    o.nontrivial = true;
+    o.label("S5-instruction-count-pair");
+    if std::env::var_os("NFV_C15_DEBUG").is_some() {
+        eprintln!("DEBUG S5 {} n={}: {} -> {} instructions ({:.2}x)", name, n, small, big, big as f64 / small.max(1) as f64);
+    }
+    let zerolen = name.starts_with("F6");
+    if big > 6 * small + 3_000_000 {
+        if zerolen {
+            o.hit("zerolen:amplification");
+        } else {
+            return Outcome::violation(format!(
+                "S5 violated for family {}: {} -> {} input units, {} -> {} instructions in parse_bytes (more than 6x + 3e6 for 4x the input)",
+                name,
+                n / 4,
+                n,
+                small,
+                big
+            ));
+        }
+    }
+    if let Some(rest) = name.strip_prefix("F10-") {
+        // the same 500-set packet against the cache of 6000 templates and against a cache
+        // holding only the 500 ids it uses
+        let twin = format!("F10s-{}", rest);
+        let k = 500usize;
+        let (large, base) = match (run(name, k), run(&twin, k)) {
+            (Ok(a), Ok(b)) => (a, b),
+            (Err(h), _) | (_, Err(h)) => return h,
+        };
+        S6_MAX_RATIO_X100.fetch_max(large * 100 / base.max(1), Ordering::Relaxed);
+        o.label("S6-large-vs-small-cache");
+        if std::env::var_os("NFV_C15_DEBUG").is_some() {
+            eprintln!("DEBUG S6 {}: {} (cache 500) vs {} (cache {})", name, base, large, F10_M);
+        }
+        if large > 2 * base + 500_000 {
+            return Outcome::violation(format!(
+                "S6 violated for family {} (a packet of {} sets): {} instructions against a cache of {} templates, {} against a cache holding only the ids the packet uses",
+                name, k, large, F10_M, base
+            ));
+        }
+    }
+    o
+}
+
 pub fn oracle(case: &Case) -> Outcome {
+    if case.param("cg") != 0 {
+        return oracle_cg(case);
+    }
     let mut o = Outcome::pass();
     if !alloc::is_installed() {
         return Outcome::harness("HARNESS: counting allocator is not installed in this binary");
@@ -318,11 +445,11 @@ fn wrap(proto: Proto, nsets: usize, body: &[u8]) -> Vec<u8> {
 const F10_BASE: u16 = 1000;
 const F10_M: usize = 6000;
 /// preloading calls that define ids F10_BASE..F10_BASE+F10_M with `def`, one record per set
-fn preload_many(proto: Proto, def: &Def) -> Vec<Vec<u8>> {
+fn preload_many(proto: Proto, def: &Def, m: usize) -> Vec<Vec<u8>> {
     let mut calls = vec![];
     let mut body: Vec<u8> = vec![];
     let mut n = 0usize;
-    for i in 0..F10_M {
+    for i in 0..m {
         body.extend(tpl_set_padded(proto, F10_BASE + i as u16, def));
         n += 1;
         if body.len() > 60000 {
@@ -339,7 +466,11 @@ fn preload_many(proto: Proto, def: &Def) -> Vec<Vec<u8>> {
 /// F10: the cost of a call must not depend on how many templates earlier calls cached.
 /// (what cached, what the measured packet's n sets do with n distinct cached ids)
 fn family_f10(name: &str, n: usize) -> Option<(Vec<Vec<u8>>, Vec<u8>)> {
-    let rest = name.strip_prefix("F10-")?;
+    // "F10s-...": the same packet against a cache that holds only the n ids it uses
+    let (rest, m) = match name.strip_prefix("F10s-") {
+        Some(r) => (r, n.clamp(1, F10_M)),
+        None => (name.strip_prefix("F10-")?, F10_M),
+    };
     let (proto, rest) = if let Some(r) = rest.strip_prefix("v9-") { (Proto::V9, r) } else { (Proto::Ipfix, rest.strip_prefix("ipfix-")?) };
     let small = plain(vec![(1, 4)]);
     let other = plain(vec![(2, 2), (1, 2)]);
@@ -357,12 +488,12 @@ fn family_f10(name: &str, n: usize) -> Option<(Vec<Vec<u8>>, Vec<u8>)> {
     for i in 0..n {
         body.extend(per_set(F10_BASE + i as u16));
     }
-    Some((preload_many(proto, cached), wrap(proto, n, &body)))
+    Some((preload_many(proto, cached, m), wrap(proto, n, &body)))
 }
 
 /// family instance of size parameter n: (preload calls, measured buffer)
 pub fn family(name: &str, n: usize) -> Option<(Vec<Vec<u8>>, Vec<u8>)> {
-    if name.starts_with("F10-") {
+    if name.starts_with("F10-") || name.starts_with("F10s-") {
         return family_f10(name, n);
     }
     let wide = plain((0..1000).map(|i| ((i % 60 + 1) as u16, 1)).collect());
@@ -577,6 +708,21 @@ fn doubling_cases() -> Vec<Case> {
     out
 }
 
+fn cg_cases() -> Vec<Case> {
+    let mut out = vec![];
+    for (i, (_name, _unit, max)) in FAMILIES.iter().enumerate() {
+        if *max < 8 {
+            continue;
+        }
+        let mut c = Case::history(vec![]);
+        c.params.insert("cg".into(), 1);
+        c.params.insert("family_index".into(), i as i64);
+        c.params.insert("n".into(), *max as i64);
+        out.push(c);
+    }
+    out
+}
+
 fn hostile_headers() -> Vec<Case> {
     let mut out = vec![];
     let small = plain(vec![(1, 4)]);
@@ -681,6 +827,7 @@ pub fn run(ctx: &Ctx) {
     ctx.enumerate("F1-hostile-headers", hostile_headers(), false, &oracle);
     ctx.enumerate("F2-F10-family-instances", family_singles(), false, &oracle);
     ctx.enumerate("S3-doubling-pairs", doubling_cases(), false, &oracle);
+    ctx.enumerate("S5-S6-instruction-counts", cg_cases(), false, &oracle);
     ctx.search("F8-hostile-histories", ctx.n(200_000, 15_000_000), &gen::hostile_case, &oracle);
     ctx.search("F8-datagram-sized-stress-cases-mutated", ctx.n(320, 10_000), &super::c01::stress_mut_case, &oracle);
     let c = StreamCfg::small(Mix { fixed: 1, v9: 3, ipfix: 3 });
@@ -694,6 +841,15 @@ pub fn run(ctx: &Ctx) {
             "max (result - K0)/(buf+templates)": MAX_R2.load(Ordering::Relaxed),
             "max alloc_bytes/result in percent (results >= 64 KiB)": MAX_R3.load(Ordering::Relaxed),
             "K0": K0, "K1": K1, "K2": K2, "K3": K3,
+        }),
+    );
+    ctx.put_extra(
+        "S5_S6_instruction_counts",
+        serde_json::json!({
+            "family pairs measured with callgrind": S5_PAIRS.load(Ordering::Relaxed),
+            "max instructions(n)/instructions(n/4)": S5_MAX_RATIO_X100.load(Ordering::Relaxed) as f64 / 100.0,
+            "max instructions(large cache)/instructions(small cache)": S6_MAX_RATIO_X100.load(Ordering::Relaxed) as f64 / 100.0,
+            "pairs skipped because valgrind is not available": S5_SKIPPED.load(Ordering::Relaxed),
         }),
     );
 }
